@@ -15,7 +15,7 @@ LEVEL = "exploration"
 ENGINE = "E1 virtual-time asyncio loop + Hypothesis"
 TECHNIQUE = "property-based testing on a virtual-time simulator: reference loop-control and pacing model as oracle"
 RULE = (
-    "Generated: one task, 1-4 clients; mode iteration-based (warm-up 0-3 / None, iterations 1-8) | time-based (warm-up 0..4 s / None, "
+    "Generated: one task, 1-4 clients; mode iteration-based (warm-up 0-3 / None, iterations 1-8; 1 in 5 with a runner that can report completion but does not within the iterations) | time-based (warm-up 0..4 s / None, "
     "period 1..10 s, optional ramp-up <= warm-up with global client index / total clients) | finite parameter source | runner-defined "
     "completion | nothing specified; target throughput number / '<n> unit/s' / target-interval / none; deterministic / poisson / no "
     "schedule; weights changing between requests, failing requests (weight 0), unit mismatches; service times 1/1024..12.5 s. "
